@@ -104,6 +104,8 @@ def gen_cases(prop, seed):
         return [make_case(top, knobs, {"switch": rng.choice(cands)})]
     cases = [make_case(top, knobs)]
     every = SWEEP_EVERY.get(prop)
+    if every and gen.THOROUGH():
+        every = max(2, every // 2)      # denser sweeps in the thorough tier
     if every and seed % every == 0:
         if prop == 'C08':
             cases += sweep_timeout(top, knobs, rng)
